@@ -123,7 +123,7 @@ func (t *Object) Validate(root *Root) (errs []error) {
 				ErrValidation, it.Name(), t.Name(), t.line, t.col))
 		}
 	}
-	return append(errs, t.validateFieldDefs(t.Name(), &t.fields)...)
+	return append(errs, t.validateFieldDefs(root, t.Name(), &t.fields)...)
 }
 
 func (t *Object) validateInterface(i *Interface) (errs []error) {
